@@ -252,6 +252,8 @@ Proof.
   - apply ynp_bind; [apply ynp_lift; apply np_ytake_ref|]. intros cr st3. apply Hinto.
   - apply IH.
   - apply ynp_if; [exact I|]. apply ynp_if; apply IH.
+  - destruct (yr s); [exact I|].
+    apply ynp_bind; [apply ynp_lift; apply np_ytake_ref|]. intros cr st3. apply Hinto.
   - clear Hbits. generalize st. revert s.
     induction fs as [ | t1 ft IHf]; intros s0 stx; [exact I|].
     apply ynp_bind; [apply IH|]. intros s1 st2. apply IHf.
